@@ -42,6 +42,7 @@ type family struct {
 
 var families = []family{
 	{name: "chain", srcEnc: []string{"none", "rc4", "aes"}},
+	{name: "gen", srcEnc: []string{"none", "rc4", "aes"}},
 	{name: "cont", srcEnc: []string{"none", "rc4", "aes"}},
 	{name: "calls", srcEnc: []string{"none", "rc4", "aes"}},
 	{name: "stream", srcEnc: []string{"none"}},
@@ -51,6 +52,7 @@ var families = []family{
 // genCase is one line written by Gen_Copier.
 type genCase struct {
 	Nodes  []Node `json:"nodes"`
+	Twin   []int  `json:"twin"`
 	Calls  []Call `json:"calls"`
 	SrcEnc string `json:"srcenc"`
 	Fail   string `json:"fail"`
@@ -60,8 +62,9 @@ type genCase struct {
 func (gc genCase) key() string {
 	b, _ := json.Marshal(struct {
 		N []Node
+		T []int
 		C []Call
-	}{gc.Nodes, gc.Calls})
+	}{gc.Nodes, gc.Twin, gc.Calls})
 	return string(b)
 }
 
@@ -147,6 +150,9 @@ func jobsFor(ctx *core.Ctx, fam family, idx int, gc genCase) []Job {
 	var nodes []Node
 	for i, nd := range gc.Nodes {
 		nd.N = i + 1
+		if i < len(gc.Twin) && gc.Twin[i] != i+1 {
+			nd.Twin = gc.Twin[i]
+		}
 		nodes = append(nodes, nd)
 	}
 	var jobs []Job
